@@ -2,6 +2,7 @@ package sim
 
 import (
 	"runtime"
+	"time"
 
 	"github.com/yaricom/goNEAT/v4/neat/genetics"
 )
@@ -61,6 +62,20 @@ func (s *Sched) Hooks() *genetics.VerifHooks {
 	return &genetics.VerifHooks{Spawn: s.spawn, Begin: s.begin, End: s.end, Yield: s.yield, Await: s.await}
 }
 
+// idle is one turn of a wait loop: a few plain yields first (the common case is a hand-over within microseconds), then
+// short sleeps so that dozens of parked tasks in sixteen worker processes do not burn every core while one task runs.
+// time.Sleep involves no synchronisation object shared between goroutines, so it contributes no happens-before edge
+// to the race detector (checked: the seeded unsynchronised read of Population.Innovations is still reported).
+//
+//go:norace
+func idle(i int) {
+	if i < 64 {
+		runtime.Gosched()
+		return
+	}
+	time.Sleep(20 * time.Microsecond)
+}
+
 //go:norace
 func (s *Sched) spawn(id int) {
 	if !s.active {
@@ -90,8 +105,8 @@ func (s *Sched) begin(id int) {
 	}
 	t.tag = "begin"
 	t.state = 1
-	for t.release == 0 {
-		runtime.Gosched()
+	for i := 0; t.release == 0; i++ {
+		idle(i)
 	}
 	t.release = 0
 }
@@ -107,8 +122,8 @@ func (s *Sched) yield(tag string) {
 	}
 	t.tag = tag
 	t.state = 1
-	for t.release == 0 {
-		runtime.Gosched()
+	for i := 0; t.release == 0; i++ {
+		idle(i)
 	}
 	t.release = 0
 }
@@ -178,12 +193,12 @@ func (s *Sched) await() {
 	last := -1
 	for {
 		var allDone, ok bool
-		for {
+		for i := 0; ; i++ {
 			allDone, ok = s.quiescent()
 			if ok {
 				break
 			}
-			runtime.Gosched()
+			idle(i)
 		}
 		if allDone {
 			break
